@@ -66,11 +66,15 @@ def script_st(draw):
     units = dict(DEF_US)
     if draw(st.integers(0, 2)) == 0:
         units = {"space": draw(st.sampled_from(si.SPACE_SYMS)), "time": "s", "quantity": draw(st.sampled_from(si.QUANTITY_SYMS))}
+    mode = draw(st.sampled_from(["auto", "auto", "none", "redist", "Poisson"]))
+    if mode == "none":
+        # 'none' hands the state to the engine as it is: stochastic engines need whole molecules then
+        spec = dict(spec, state={"values": [gen.fs(round(F(v))) for v in spec["state"]["values"]], "units": "molecule"})
     return {"sys": spec, "route": draw(st.sampled_from(["ctor", "dict"])), "units": units,
             "t_sample": [v * dt for v in ts], "time_step": dt, "t_max": tmax,
             "policy": draw(st.sampled_from(["on_t_sample", "on_t_sample", "on_iteration", "on_interval", "no_sampling"])),
             "interval": dt * draw(st.sampled_from([0.5, 1.0, 2.5])), "seed": draw(st.integers(0, 2 ** 32 - 1)),
-            "mode": draw(st.sampled_from(["auto", "auto", "none", "redist", "Poisson"]))}
+            "mode": mode}
 
 
 @st.composite
